@@ -123,6 +123,20 @@ func runC03(c *Ctx) {
 		if r6.Sign() != 0 && s6.Sign() != 0 && modN(new(big.Int).Add(r6, s6)).Sign() != 0 {
 			do("infinity", kp.px, kp.py, be32(r6), be32(r6), be32(s6))
 		}
+		// [s]G + [t]P is the FINITE point (0, sqrt b): a verifier that recognises infinity by x = 0 rejects it.
+		// P = t^-1 ((0, y0) - [s]G), r = t - s, e = r  (then (e + 0) mod n = r)
+		if y0 := new(big.Int).ModSqrt(curveB, curveP); y0 != nil {
+			t7, s7 := randK(c), randK(c)
+			r7 := modN(new(big.Int).Sub(t7, s7))
+			if r7.Sign() != 0 {
+				sG := affMul(s7, affG())
+				negSG := affPt{x: sG.x, y: new(big.Int).Sub(curveP, sG.y)}
+				P7 := affMul(inv(t7), affAdd(affPt{x: big.NewInt(0), y: y0}, negSG))
+				if !P7.inf {
+					do("result-x=0", be32(P7.x), be32(P7.y), be32(r7), be32(r7), be32(s7))
+				}
+			}
+		}
 		// wrong key
 		other := randKey(c)
 		do("otherkey", other.px, other.py, e, rb, sb)
